@@ -867,6 +867,50 @@ func ruleLockReentry(c *Ctx) {
 			// recursion cycles among methods that acquire (same receiver) are covered above; also note calls made while
 			// holding the lock through a helper that does not itself lock: propagate may-held into helpers
 		}
+		// cross-instance: while this instance's mutex may be held, a call on ANOTHER instance of the same type is only safe if
+		// that instance cannot call back into this one; a type with a parent/child link (PubkeyCache: children delegate
+		// lookups to their parent, which lock) must never be called parent->child under the parent's lock
+		hasBackLink := false
+		for i := 0; i < s.st.NumFields(); i++ {
+			if nt := namedOf(s.st.Field(i).Type()); nt == s.nt {
+				hasBackLink = true
+			}
+		}
+		if hasBackLink {
+			info := s.pk.TypesInfo
+			for _, mn := range sortedKeys(s.methods) {
+				m := s.methods[mn]
+				ast.Inspect(m.fd.Body, func(n ast.Node) bool {
+					call, ok := n.(*ast.CallExpr)
+					if !ok {
+						return true
+					}
+					sel, ok := call.Fun.(*ast.SelectorExpr)
+					if !ok || namedOf(info.TypeOf(sel.X)) != s.nt {
+						return true
+					}
+					if id, ok := ast.Unparen(sel.X).(*ast.Ident); ok && info.Uses[id] == m.recv {
+						return true // same receiver: handled above
+					}
+					// calls on the receiver's own parent (child -> parent) are the allowed direction
+					if isRecvField(info, sel.X, m.recv, "parent") {
+						return true
+					}
+					cm := s.methods[sel.Sel.Name]
+					if cm == nil {
+						return true
+					}
+					key := fmt.Sprintf("%s.%s=>%s.%s", s.name, mn, types.ExprString(sel.X), sel.Sel.Name)
+					may := m.stateAt[call][1]
+					if may != 0 && acq[sel.Sel.Name] != nil {
+						c.bad(key, call.Pos(), "%s may hold its own mutex (%s) while calling %s on another %s; instances delegate to their parent under the parent's lock, so a child built on this instance calls back into the held mutex: deadlock, and every other user of this instance blocks too", mn, lockNames[may], sel.Sel.Name, s.nt.Obj().Name())
+					} else {
+						c.ok(key, call.Pos(), "own mutex not held during the cross-instance call")
+					}
+					return true
+				})
+			}
+		}
 		// helpers invoked with the lock held: their own self-calls happen under the lock too
 		for _, mn := range sortedKeys(s.methods) {
 			m := s.methods[mn]
